@@ -3,6 +3,8 @@
    generator derivation for any expander, and reductions: a repeated generator, or one shared between two interface
    ids, is a collision of expand_message or hash_to_curve on explicit distinct inputs. *)
 From ZK Require Import Laws BaseLemmas ModelLemmas Consts Separation.
+From ZK Require Import Blind Options.
+From Coq Require Import List. Import ListNotations.
 
 (* 6 interface ids pairwise prefix-free; 36 derived DST / seed strings pairwise distinct, each <= 255 bytes; P1 48 bytes
    and different per suite; EXPAND_LEN 48, IKM_LEN 32, scalar length 32; expander kinds as the model assumes *)
@@ -74,3 +76,17 @@ Check (C11_generator_shared_reduces :
   exists s s', Collision (fun md : bytes * bytes => h2c E (fst md) (snd md))
                          (s, api ++ c_generator_dst (cs E)) (s', api' ++ c_generator_dst (cs E))).
 Print Assumptions C11_generator_shared_reduces.
+
+(* prepare_parameters: the combined set is create(n, id) ++ create(m, "BLIND_" || id), id empty when the api_id is ABSENT *)
+Theorem C11_prepare_parameters_gens :
+  forall (E : env) msgs cmsgs gen_n blind_n spb api_id ms g,
+  prepare_parameters E msgs cmsgs gen_n blind_n spb api_id = Ok (ms, g) ->
+  g_values E g = create_generators E gen_n (option_default [] api_id) ++
+                 create_generators E blind_n (blind_prefix ++ option_default [] api_id).
+Proof. exact prepare_parameters_gens. Qed.
+Check (C11_prepare_parameters_gens :
+  forall (E : env) msgs cmsgs gen_n blind_n spb api_id ms g,
+  prepare_parameters E msgs cmsgs gen_n blind_n spb api_id = Ok (ms, g) ->
+  g_values E g = create_generators E gen_n (option_default [] api_id) ++
+                 create_generators E blind_n (blind_prefix ++ option_default [] api_id)).
+Print Assumptions C11_prepare_parameters_gens.
